@@ -434,7 +434,7 @@ thread_local! {
 /// seconds is reported as a hang and its executor thread is abandoned. Ordinary executions take
 /// milliseconds to a few seconds, so the limit is not a timing oracle.
 pub fn watchdog_secs() -> u64 {
-    std::env::var("VERIF_WATCHDOG_S").ok().and_then(|s| s.parse().ok()).unwrap_or(600)
+    std::env::var("VERIF_WATCHDOG_S").ok().and_then(|s| s.parse().ok()).unwrap_or(180)
 }
 
 pub const WATCHDOG_MSG: &str = "cfr-verif: watchdog: the simulated execution did not finish";
